@@ -13,9 +13,9 @@ for id in "$@"; do
   res_apply=ok; git apply $d/patch.diff || res_apply=FAIL
   warn=$(cargo build --offline 2>&1 | grep -c "^warning")
   suite=$(cargo test --offline --no-fail-fast 2>&1 | grep -E "^test result" | awk '{p+=$4; f+=$6} END{print p" passed "f" failed"}')
-  cp $d/zz_demo.rs tests/zz_demo.rs
+  [ -f $d/zz_demo.rs ] && cp $d/zz_demo.rs tests/zz_demo.rs
   if [ -f $d/zz_demo.sh ]; then
-    sed "s#/tmp/mut_[A-Za-z0-9]*#$wt#g" $d/zz_demo.sh > zz_demo.sh; chmod +x zz_demo.sh
+    sed "s#/tmp/mut[0-9]*_[A-Za-z0-9]*#$wt#g" $d/zz_demo.sh > zz_demo.sh; chmod +x zz_demo.sh
     ./zz_demo.sh > demo_with.log 2>&1; with=$?
   else
     cargo test --offline --test zz_demo > demo_with.log 2>&1; with=$?
